@@ -147,12 +147,7 @@ Theorem C07_api_routes_guarded :
   (forall r, In r (ha_routes_of (dashboard_routes ++ admin_routes ++ webserver_routes)) ->
              wr_mw r = true \/ ha_declared_public r = true) /\
   dashboard_routes <> [] /\ admin_routes <> [].
-Proof.
-  pose proof (ha_routes_guarded_sound (dashboard_routes ++ admin_routes ++ webserver_routes) (eq_refl true)) as H.
-  pose proof (ha_routes_guarded_sound dashboard_routes (eq_refl true)) as Hd.
-  pose proof (ha_routes_guarded_sound admin_routes (eq_refl true)) as Ha.
-  tauto.
-Qed.
+Proof. exact (ha_api_routes_guarded_sound dashboard_routes admin_routes webserver_routes (eq_refl true) (eq_refl true) (eq_refl true)). Qed.
 Print Assumptions C07_api_routes_guarded.
 
 (* hence, whatever flags are enabled: a handler of the dashboard / admin API runs only for a request that carries
